@@ -158,7 +158,7 @@ fn main() {
                     let mut t = String::new();
                     let mut o = String::new();
                     let mut k: HashMap<String, u64> = HashMap::new();
-                    limit::run_case(&format!("l-{}-{}", seed, c), limit, r, &mut rng, 2, &mut t, &mut o, &mut k);
+                    limit::run_case(&format!("l-{}-{}", seed, c), limit, r, c * r + seed as usize, &mut rng, 2, &mut t, &mut o, &mut k);
                     (t, o, k)
                 }));
             }
